@@ -216,6 +216,8 @@ def gen_posix(rng, k3_domain=False):
         return ('N', first + day - 1)
     stdoff = rng.choice([-43200, -36000, -18000, -17762, -12600, -3600, 0, 1172, 3600, 7200, 19800, 20700, 34200, 36000, 43200, 45900])
     saving = rng.choice([1800, 3600, 3600, 3600, 7200])
+    if rng.random() < .06:
+        stdoff = -saving             # daylight time exactly UTC: an explicit daylight offset of zero
     std = rng.choice(['EST', 'CET', 'AEST', 'NST', 'AAA', 'WET', 'XYZST'])
     dst = rng.choice(['EDT', 'CEST', 'AEDT', 'NDT', 'BBB', 'WEST', 'XYZDT'])
     times = [0, 3600, 7200, 7200, 7200, 10800, 60, 7261, 9015, 11159, 9000, 82800]
